@@ -36,7 +36,11 @@ def _np_dtype(code):
     return {0: ComplexInt32DType, 1: np.dtype(np.complex64), 2: np.dtype(np.complex128), 3: np.dtype(np.float64),
             4: np.dtype(np.int32), 5: np.dtype([("real", np.int32), ("imag", np.int32)]),
             # field-less void and sub-array dtypes: unsupported although a structured dtype is supported
-            6: np.dtype("V4"), 7: np.dtype("V16"), 8: np.dtype((np.int16, (2,))), 9: np.dtype("V8")}[code]
+            6: np.dtype("V4"), 7: np.dtype("V16"), 8: np.dtype((np.int16, (2,))), 9: np.dtype("V8"),
+            # look-alikes of ComplexInt32DType that are not it: the same two fields in a padded record, or declared in the other order
+            10: np.dtype({"names": ["real", "imag"], "formats": ["i2", "i2"], "offsets": [0, 2], "itemsize": 8}),
+            11: np.dtype({"names": ["imag", "real"], "formats": ["i2", "i2"], "offsets": [2, 0]}),
+            12: np.dtype([("real", "<i2"), ("imag", "<i2"), ("pad", "<i2")])}[code]
 
 
 def _layout(arr, layout):
@@ -59,6 +63,9 @@ def _layout(arr, layout):
     if layout == "broadcast" and arr.ndim >= 2:
         # rows are equal by construction: a zero-stride view of the first one
         return np.broadcast_to(np.ascontiguousarray(arr[0]), arr.shape)
+    if layout == "swapped":
+        # the same values held in the other byte order
+        return arr.astype(arr.dtype.newbyteorder()) if arr.dtype.names is None else arr
     if layout == "colslice" and arr.ndim >= 2:
         wide = np.zeros(arr.shape[:-1] + (arr.shape[-1] + 2,), arr.dtype)
         wide[..., 1:-1] = arr
@@ -160,8 +167,15 @@ def run_impl(c):
     x = _make(c)
     before = np.array(x, copy=True)
 
+    got = vf.try_impl(lambda: convert_complex(_request(c), x))
+    if "exc" in got:
+        return got
+    if c["dst"] > 2:
+        # an unsupported request was served: whatever came back, it is not a refusal
+        return {"ok": {"shape": list(np.shape(got["ok"])), "vals": []}}
+
     def f():
-        r = convert_complex(_request(c), x)
+        r = got["ok"]
         if r.dtype != _np_dtype(c["dst"]):
             raise AssertionError("dtype")
         if np.ascontiguousarray(x).tobytes() != np.ascontiguousarray(before).tobytes():
@@ -215,7 +229,12 @@ def to_coq(c, r):
         else:
             cv = "(CFloats [%s])" % "; ".join("(%s, %s)" % (_fpc(v[1]), _fpc(v[2])) for v in vals)
         out = "(Ok (%s, %s))" % (vf.listc(r["ok"]["shape"]), cv)
-    return "Convert %s %s %s %s %s" % (vf.zc(c["src"]), vf.zc(c["dst"] if c["dst"] <= 2 else 3), vf.listc(c["shape"]), _cvalue_in(c), out)
+    dstc = c["dst"] if c["dst"] <= 2 else 3
+    if c.get("layout") == "swapped" and c["src"] != 0 and r.get("exc") == "TypeError":
+        # an input array of non-native byte order may be refused (it is not one of the supported dtypes) or converted
+        # by value; what it may not be is misread. A refusal is judged like an unsupported request.
+        dstc = 3
+    return "Convert %s %s %s %s %s" % (vf.zc(c["src"]), vf.zc(dstc), vf.listc(c["shape"]), _cvalue_in(c), out)
 
 
 def sig(c, r):
@@ -276,10 +295,10 @@ def gen_cases(rng, tier):
             cases.append({"k": "sweep_pairs", "chunk": ch, "width": 1024})
     for _ in range(20):
         cases.append({"k": "layout", "values": [_int_pair(rng) for _ in range(rng.randrange(0, 5))]})
-    layouts = ["C", "F", "strided", "reversed", "transposed", "colslice"]
+    layouts = ["C", "F", "strided", "reversed", "transposed", "colslice", "swapped"]
     for _ in range(2500 if not big else 30000):
         src = rng.choice([0, 0, 1, 2])
-        dst = rng.choice([0, 1, 2, 0, 1, 2, 3, 4, 5, 6, 7, 8, 9]) if rng.random() < 0.15 else rng.choice([0, 1, 2])
+        dst = rng.choice([0, 1, 2, 0, 1, 2, 3, 4, 5, 6, 7, 8, 9, 10, 11, 12, 10, 11]) if rng.random() < 0.18 else rng.choice([0, 1, 2])
         shape = _shape(rng)
         n = 1
         for s in shape:
